@@ -16,6 +16,7 @@ type monC02 struct {
 	quietSince  int
 	lastReason  string
 	lastBusy    int // last round in which a canary was still in progress / environment acted
+	neverReadyLive bool // in the last round the live (or active) template was the one whose pods never become Ready
 	done        bool
 }
 
@@ -134,6 +135,20 @@ func (m *monC02) RoundEnd(s *Sim, round int) {
 	if s.canaryBusy() {
 		m.lastBusy = round
 	}
+	m.neverReadyLive = false
+	if nr := s.W.Extra["neverReady"]; nr != "" {
+		// premise of the property: created pods become Ready. When the live template is (again) the one
+		// whose pods never do - e.g. a failed canary rolled back to it - the bound does not run
+		for _, def := range s.W.EDS {
+			if e := s.Store.GetEDS(def.NS, def.Name); e != nil {
+				if act := s.Store.GetERS(e.Namespace, e.Status.ActiveReplicaSet); letterOfTpl(&e.Spec.Template) == nr || (act != nil && letterOfTpl(&act.Spec.Template) == nr) {
+					m.lastBusy = round
+					m.neverReadyLive = true
+					s.Probe("c02.live-template-never-ready")
+				}
+			}
+		}
+	}
 	all := true
 	for _, def := range s.W.EDS {
 		ok, why, _ := s.convergedEDS(def)
@@ -190,6 +205,12 @@ func (m *monC02) checkStatus(s *Sim) {
 
 func (m *monC02) Quiesced(s *Sim) {
 	if s.W.Extra["c02"] != "1" || m.done {
+		return
+	}
+	if m.convergedAt == 0 && m.neverReadyLive {
+		// the live template was, at the end, the one whose pods never become Ready: the premise of the
+		// property does not hold, nothing to conclude from this run
+		s.Probe("c02.premise-broken-at-the-end")
 		return
 	}
 	if m.convergedAt == 0 {
